@@ -469,6 +469,37 @@ func runC02(r *mc.Run) {
 		add("inline-"+is.name+"+T-one-bundle", &ccpb.RootOfTrust{Cabundles: []string{inI + inT}}, []bool{true, false})
 		add("inline-F,"+is.name+",T", &ccpb.RootOfTrust{Cabundles: []string{string(world.PEM(F.Root)), inI, inT}}, []bool{true, true})
 	}
+	// large bundles: 100 resp. 300 unrelated roots with T's root first / last, as a file and inline (tens to hundreds
+	// of kilobytes): everything listed is trusted, wherever it stands
+	{
+		var big100, big300 []*x509.Certificate
+		for i := 0; i < 300; i++ {
+			k := world.NewKey(fmt.Sprintf("c02-bundle-root-%d", i%100))
+			cert := world.MakeCert(world.CertSpec{CN: fmt.Sprintf("Bundle Root CA %d", i), IsCA: true, Key: k, MaxPathLen: 1}, nil, k)
+			big300 = append(big300, cert)
+			if i < 100 {
+				big100 = append(big100, cert)
+			}
+		}
+		tLast100 := world.PEM(append(append([]*x509.Certificate{}, big100...), T.Root)...)
+		tFirst100 := world.PEM(append([]*x509.Certificate{T.Root}, big100...)...)
+		tLast300 := world.PEM(append(append([]*x509.Certificate{}, big300...), T.Root)...)
+		only100 := world.PEM(big100...)
+		for _, bc := range []struct {
+			name  string
+			rot   *ccpb.RootOfTrust
+			lists []bool
+		}{
+			{fmt.Sprintf("file-100-unrelated-then-T(%dB)", len(tLast100)), &ccpb.RootOfTrust{CabundlePaths: []string{wf("big100T.pem", tLast100)}}, []bool{true, false}},
+			{"file-T-then-100-unrelated", &ccpb.RootOfTrust{CabundlePaths: []string{wf("bigT100.pem", tFirst100)}}, []bool{true, false}},
+			{fmt.Sprintf("file-300-unrelated-then-T(%dB)", len(tLast300)), &ccpb.RootOfTrust{CabundlePaths: []string{wf("big300T.pem", tLast300)}}, []bool{true, false}},
+			{"inline-100-unrelated-then-T", &ccpb.RootOfTrust{Cabundles: []string{string(tLast100)}}, []bool{true, false}},
+			{"file-100-unrelated-only", &ccpb.RootOfTrust{CabundlePaths: []string{wf("big100.pem", only100)}}, []bool{false, false}},
+			{"file-100-unrelated+file-F", &ccpb.RootOfTrust{CabundlePaths: []string{wf("big100b.pem", only100), fF}}, []bool{false, true}},
+		} {
+			cfgs = append(cfgs, bc)
+		}
+	}
 	// bundle files whose NAMES contain characters a pattern matcher gives a meaning to, next to files such a pattern
 	// would match: a configured path names one file, literally. Each pair: the listed file holds F's root, the
 	// neighbour holds T's root — and the other way round
